@@ -9,6 +9,15 @@ from ..common import CACHE, harness_bin, tlc_model, tlc_trace, read_ndjson, Tool
 def run(prop, tier, seed, replay):
     t0 = time.time()
     rep = common.Report(prop)
+    cov = bridge(prop, tier, seed, rep)
+    rcx = rep.finish()
+    common.write_evidence(prop, tier, seed, cov, time.time() - t0, len(rep.violations))
+    return rcx
+
+
+def bridge(prop, tier, seed, rep):
+    """Model, replay and trace validation of the bridge group under the focus of `prop` (C11; C02 for the dispatch clauses);
+    violations go to `rep`; returns the coverage record."""
     tdir = os.path.join(CACHE, "tlc")
     os.makedirs(tdir, exist_ok=True)
     stim = os.path.join(tdir, "bridge_stim_%s.ndjson" % tier)
@@ -32,10 +41,9 @@ def run(prop, tier, seed, replay):
         if key in seen:
             continue
         seen.add(key)
-        rep.violation(key, "C11: clause `%s` fails (via %s) for a response with sub-messages %s: verdict=%s %s" % (
+        rep.violation(key, prop + ": clause `%s` fails (via %s) for a response with sub-messages %s: verdict=%s %s" % (
             mine[0], e.get("via"), [(mm["kind"], mm["prof"]) for mm in e.get("desc", {}).get("msgs", [])], e.get("verdict"), e.get("err", "")[:120]),
             {"event.json": e})
-    rcx = rep.finish()
     n = sum(1 for _ in open(trace))
     evs = []
     with open(trace) as f:
@@ -47,5 +55,4 @@ def run(prop, tier, seed, replay):
                           "(id, gas limit, reply trigger, payload) x attributes x events x data replayed into the real IntoResponse::into_response; every "
                           "third one also returned by an interface handler written for the empty custom types through the execute and sudo entry points "
                           "of a contract with custom message and query types (context seen by the handler compared with the caller's and a native handler's)"}
-    common.write_evidence(prop, tier, seed, cov, time.time() - t0, len(rep.violations))
-    return rcx
+    return cov
